@@ -182,6 +182,33 @@ func c17(r *eng.Run) {
 			}
 		}
 	}
+	// block boundaries: a multi-byte rune straddling every offset round 64/128/256/512, in a
+	// string that also contains an invalid byte (so that no whole-string fast path applies)
+	for _, B := range []int{64, 128, 256, 512} {
+		for _, rn := range []string{"é", "€", "😀"} {
+			for off := -4; off <= 1; off++ {
+				for _, bad := range []int{0, 1, 2} { // invalid byte at start / at end / none
+					pos := B + off
+					b := bytes.Repeat([]byte("a"), B+40)
+					copy(b[pos:], rn)
+					switch bad {
+					case 0:
+						b[0] = 0xFF
+					case 1:
+						b[len(b)-1] = 0xFF
+					}
+					one(b, "block-boundary")
+					sweep++
+					str := string(b)
+					want := string(ref.SanitizeUTF8(b))
+					m := rjson.StdLibCompatibleMap(map[string]interface{}{str: str})
+					if !ref.SameTree(m, map[string]interface{}{want: want}) {
+						r.Violation(eng.Replay{Engine: "bytes", Entry: "StdLibCompatibleMap", Sig: fmt.Sprintf("map-block-boundary/B=%d/off=%d/%q", B, off, rn), InputB64: b, Expected: "sanitised key and value", Got: treeStr(m)})
+					}
+				}
+			}
+		}
+	}
 	r.Set("position_sweep_strings", sweep)
 	r.Set("states", states)
 	r.Set("transitions", trans)
